@@ -23,6 +23,16 @@ certainly meaning-preserving.  The checks must stay quiet on the result
   guard        for ..: if c: continue; rest  ->  for ..: if not c: rest
   augassign    n -= 1 / n += 1 (integer constant)  ->  n = n - 1
   temp         return <expr>  ->  result = <expr>; return result
+  chained      a <= b < c  ->  a <= b and b < c
+  demorgan     not (a and b)  ->  not a or not b   (in tests)
+  ifswap       if c: A else: B  ->  if not c: B else: A
+  elifnest     elif chains as nested else: if
+  comp2loop    x = [e for t in it if c]  ->  x = []; for ...: x.append(e)
+  kwswap       keyword arguments of a call in reverse order
+  range0       range(n)  ->  range(0, n)
+  retifexp     if c: return X else: return Y  ->  return X if c else Y
+  whiletrue    while c: B  ->  while True: if not c: break; B
+  inlinetemp   t = <expr>; <statement using t once>  ->  expression in place
 """
 import ast
 import os
@@ -304,11 +314,278 @@ class Reformat(ast.NodeTransformer):
     pass
 
 
+class Chained(ast.NodeTransformer):
+    """a <= b < c  ->  a <= b and b < c   (plain middle operands)"""
+
+    def visit_Compare(self, node):
+        self.generic_visit(node)
+        if len(node.ops) >= 2 and all(plain(c) for c in
+                                      node.comparators[:-1]):
+            parts = []
+            left = node.left
+            for op, right in zip(node.ops, node.comparators):
+                parts.append(ast.Compare(left=left, ops=[op],
+                                         comparators=[right]))
+                left = right
+            return ast.BoolOp(op=ast.And(), values=parts)
+        return node
+
+
+class DeMorgan(ast.NodeTransformer):
+    """``not (a and b)`` -> ``not a or not b`` in tests (truth value
+    contexts only: if / while / assert / conditional expressions)."""
+
+    def _neg(self, e):
+        return ast.UnaryOp(op=ast.Not(), operand=e)
+
+    def _test(self, t):
+        if isinstance(t, ast.UnaryOp) and isinstance(t.op, ast.Not) and \
+                isinstance(t.operand, ast.BoolOp):
+            b = t.operand
+            op = ast.Or() if isinstance(b.op, ast.And) else ast.And()
+            return ast.BoolOp(op=op, values=[self._neg(v) for v in b.values])
+        return t
+
+    def visit_If(self, node):
+        self.generic_visit(node)
+        node.test = self._test(node.test)
+        return node
+
+    def visit_While(self, node):
+        self.generic_visit(node)
+        node.test = self._test(node.test)
+        return node
+
+    def visit_IfExp(self, node):
+        self.generic_visit(node)
+        node.test = self._test(node.test)
+        return node
+
+
+class IfSwap(ast.NodeTransformer):
+    """if c: A else: B  ->  if not c: B else: A"""
+
+    def visit_If(self, node):
+        self.generic_visit(node)
+        if node.orelse and not (len(node.orelse) == 1 and
+                                isinstance(node.orelse[0], ast.If)):
+            return ast.If(test=ast.UnaryOp(op=ast.Not(), operand=node.test),
+                          body=node.orelse, orelse=node.body)
+        return node
+
+
+class ElifNest(ast.NodeTransformer):
+    """elif chains written as nested else: if"""
+    # (ast represents elif as orelse=[If]; unparse prints 'elif'.  Wrap the
+    # nested If with a preceding ``pass`` so that it is printed nested.)
+
+    def visit_If(self, node):
+        self.generic_visit(node)
+        if len(node.orelse) == 1 and isinstance(node.orelse[0], ast.If):
+            node.orelse = [ast.Pass(), node.orelse[0]]
+        return node
+
+
+class Comp2Loop(ast.NodeTransformer):
+    """x = [e for t in it if c]  ->  x = []; for t in it: if c: x.append(e)
+    (single generator, plain assignment to a name not used in the
+    comprehension, function bodies only)."""
+
+    def _rewrite(self, body):
+        out = []
+        for s in body:
+            if isinstance(s, ast.Assign) and len(s.targets) == 1 and \
+                    isinstance(s.targets[0], ast.Name) and \
+                    isinstance(s.value, (ast.ListComp, ast.SetComp)) and \
+                    len(s.value.generators) == 1 and \
+                    not s.value.generators[0].is_async and \
+                    s.targets[0].id not in names_in(s.value) and \
+                    not any(isinstance(n, (ast.Lambda, ast.ListComp,
+                                           ast.SetComp, ast.DictComp,
+                                           ast.GeneratorExp))
+                            for n in ast.walk(s.value) if n is not s.value):
+                g = s.value.generators[0]
+                nm = s.targets[0].id
+                is_list = isinstance(s.value, ast.ListComp)
+                init = ast.Assign(
+                    targets=[ast.Name(id=nm, ctx=ast.Store())],
+                    value=ast.List(elts=[], ctx=ast.Load()) if is_list else
+                    ast.Call(func=ast.Name(id="set", ctx=ast.Load()),
+                             args=[], keywords=[]), lineno=0)
+                add = ast.Expr(value=ast.Call(
+                    func=ast.Attribute(value=ast.Name(id=nm, ctx=ast.Load()),
+                                       attr="append" if is_list else "add",
+                                       ctx=ast.Load()),
+                    args=[s.value.elt], keywords=[]))
+                inner = [add]
+                for c in reversed(g.ifs):
+                    inner = [ast.If(test=c, body=inner, orelse=[])]
+                loop = ast.For(target=g.target, iter=g.iter, body=inner,
+                               orelse=[], lineno=0)
+                out += [init, loop]
+            else:
+                out.append(s)
+        return out
+
+    def visit_FunctionDef(self, node):
+        self.generic_visit(node)
+        # the loop variable of a comprehension is private to it; as a loop
+        # it becomes a local: only where that name is not otherwise used
+        used = {}
+        for n in ast.walk(node):
+            if isinstance(n, ast.Name):
+                used[n.id] = used.get(n.id, 0) + 1
+        for holder in ast.walk(node):
+            for f in ("body", "orelse", "finalbody"):
+                b = getattr(holder, f, None)
+                if isinstance(b, list) and b and isinstance(b[0], ast.stmt) \
+                        and not isinstance(holder, ast.ClassDef):
+                    ok = []
+                    for s in b:
+                        ok.append(s)
+                    setattr(holder, f, self._rewrite_safe(b, node))
+        return node
+
+    def _rewrite_safe(self, body, fn):
+        out = []
+        for s in body:
+            r = self._rewrite([s])
+            if len(r) == 2:
+                g = s.value.generators[0]
+                tnames = set(n.id for n in ast.walk(g.target)
+                             if isinstance(n, ast.Name))
+                outside = set()
+                for n in ast.walk(fn):
+                    if isinstance(n, ast.Name) and n.id in tnames:
+                        # occurrences outside this comprehension?
+                        p = n
+                        inside = False
+                        for m in ast.walk(s.value):
+                            if m is n:
+                                inside = True
+                                break
+                        if not inside:
+                            outside.add(n.id)
+                params = set(a.arg for a in ast.walk(fn.args)
+                             if isinstance(a, ast.arg))
+                if outside or tnames & params:
+                    out.append(s)
+                    continue
+            out += r
+        return out
+
+
+class KwSwap(ast.NodeTransformer):
+    """f(a, x=1, y=2) -> f(a, y=2, x=1)  (plain keyword values only)"""
+
+    def visit_Call(self, node):
+        self.generic_visit(node)
+        kws = node.keywords
+        if len(kws) >= 2 and all(k.arg is not None and plain(k.value)
+                                 for k in kws):
+            node.keywords = list(reversed(kws))
+        return node
+
+
+class Range0(ast.NodeTransformer):
+    """range(n) -> range(0, n)"""
+
+    def visit_Call(self, node):
+        self.generic_visit(node)
+        if isinstance(node.func, ast.Name) and node.func.id == "range" and \
+                len(node.args) == 1 and not node.keywords:
+            node.args = [ast.Constant(value=0), node.args[0]]
+        return node
+
+
+class RetIfExp(ast.NodeTransformer):
+    """if c: return X else: return Y  ->  return X if c else Y"""
+
+    def visit_If(self, node):
+        self.generic_visit(node)
+        if len(node.body) == 1 and len(node.orelse) == 1 and all(
+                isinstance(s, ast.Return) and s.value is not None
+                for s in (node.body[0], node.orelse[0])):
+            return ast.Return(value=ast.IfExp(test=node.test,
+                                              body=node.body[0].value,
+                                              orelse=node.orelse[0].value))
+        return node
+
+
+class WhileTrue(ast.NodeTransformer):
+    """while c: B  ->  while True: if not c: break; B   (no else clause)"""
+
+    def visit_While(self, node):
+        self.generic_visit(node)
+        if node.orelse or (isinstance(node.test, ast.Constant) and
+                           node.test.value is True):
+            return node
+        guard = ast.If(test=ast.UnaryOp(op=ast.Not(), operand=node.test),
+                       body=[ast.Break()], orelse=[])
+        return ast.While(test=ast.Constant(value=True),
+                         body=[guard] + node.body, orelse=[])
+
+
+class InlineTemp(ast.NodeTransformer):
+    """t = <call-free expr>; <next statement using t once>  ->  the next
+    statement with the expression in place (t not used anywhere else)."""
+
+    def visit_FunctionDef(self, node):
+        self.generic_visit(node)
+        uses = {}
+        stores = {}
+        for n in ast.walk(node):
+            if isinstance(n, ast.Name):
+                if isinstance(n.ctx, ast.Load):
+                    uses[n.id] = uses.get(n.id, 0) + 1
+                else:
+                    stores[n.id] = stores.get(n.id, 0) + 1
+        for holder in ast.walk(node):
+            for f in ("body", "orelse", "finalbody"):
+                b = getattr(holder, f, None)
+                if not (isinstance(b, list) and len(b) >= 2) or \
+                        isinstance(holder, ast.ClassDef):
+                    continue
+                i = 0
+                while i + 1 < len(b):
+                    a, nx = b[i], b[i + 1]
+                    if isinstance(a, ast.Assign) and len(a.targets) == 1 \
+                            and isinstance(a.targets[0], ast.Name) and \
+                            not has_call(a.value) and \
+                            uses.get(a.targets[0].id) == 1 and \
+                            stores.get(a.targets[0].id) == 1 and \
+                            isinstance(nx, (ast.Assign, ast.Expr,
+                                            ast.Return, ast.AugAssign)) and \
+                            not any(isinstance(x, (ast.Lambda, ast.ListComp,
+                                                   ast.SetComp, ast.DictComp,
+                                                   ast.GeneratorExp))
+                                    for x in ast.walk(nx)):
+                        nm = a.targets[0].id
+                        hits = [x for x in ast.walk(nx)
+                                if isinstance(x, ast.Name) and x.id == nm
+                                and isinstance(x.ctx, ast.Load)]
+                        if len(hits) == 1:
+                            class Sub(ast.NodeTransformer):
+                                def visit_Name(self, n_):
+                                    if n_ is hits[0]:
+                                        return a.value
+                                    return n_
+                            b[i + 1] = Sub().visit(nx)
+                            del b[i]
+                            continue
+                    i += 1
+        return node
+
+
 CLASSES = {"reformat": Reformat, "rename": Rename, "commute": Commute,
            "flipcmp": FlipCmp, "noteq": NotEq, "literals": Literals,
            "items": Items, "ifexp": IfExp, "unifexp": UnIfExp,
            "negifexp": NegIfExp, "swapassign": SwapAssign, "guard": Guard,
-           "augassign": AugAssign, "temp": Temp}
+           "augassign": AugAssign, "temp": Temp, "chained": Chained,
+           "demorgan": DeMorgan, "ifswap": IfSwap, "elifnest": ElifNest,
+           "comp2loop": Comp2Loop, "kwswap": KwSwap, "range0": Range0,
+           "retifexp": RetIfExp, "whiletrue": WhileTrue,
+           "inlinetemp": InlineTemp}
 
 
 def main():
